@@ -18,3 +18,319 @@ Proof.
     rewrite Z.mod_mul by lia. cbn [Z.eqb]. split; [|lia].
     f_equal. unfold unix_to_slot. rewrite Hu. apply Z.div_mul. lia.
 Qed.
+
+(* ---------- helpers ---------- *)
+Fixpoint height (lvl : nat) (n : snode) {struct lvl} : nat :=
+  match lvl with
+  | O => 1
+  | S l => S (fold_right Nat.max 0%nat (map (height l) (somes (sn_ch n))))
+  end.
+
+Fixpoint bounded (lvl : nat) (n : snode) {struct lvl} : Prop :=
+  match n with
+  | SNode t _ s w ch =>
+      (s < 2 ^ 64)%N /\ (w < 2 ^ 64)%N /\ - 2 ^ 63 <= slot_to_unix t < 2 ^ 63 /\
+      match lvl with
+      | O => True
+      | S l => oall (bounded l) ch
+      end
+  end.
+
+Lemma count_some_somes {A} (l : list (option A)) : count_some l = length (somes l).
+Proof.
+  induction l as [|o l IH]; [reflexivity|]. rewrite count_some_cons. unfold somes in *. cbn [flat_map].
+  rewrite app_length, <- IH. destruct o; reflexivity.
+Qed.
+
+Lemma somes_cons {A} (o : option A) l : somes (o :: l) = match o with Some x => x :: somes l | None => somes l end.
+Proof. destruct o; reflexivity. Qed.
+
+Lemma uvarint_enc_nonempty n : (1 <= length (uvarint_enc n))%nat.
+Proof.
+  unfold uvarint_enc. destruct (N.to_nat (N.log2 n)); cbn; [lia|]. destruct (n <? 128)%N; cbn; lia.
+Qed.
+
+Lemma ser_node_nonempty lvl n : (1 <= length (ser_node lvl n))%nat.
+Proof.
+  destruct lvl as [|l], n; cbn [ser_node ser_header]; rewrite !app_length;
+    [pose proof (uvarint_enc_nonempty (N.of_nat 0))|pose proof (uvarint_enc_nonempty (N.of_nat (S l)))]; lia.
+Qed.
+
+Lemma concat_ser_length l cs : (length cs <= length (concat (map (ser_node l) cs)))%nat.
+Proof.
+  induction cs as [|c cs IH]; cbn; [lia|]. rewrite app_length. pose proof (ser_node_nonempty l c). lia.
+Qed.
+
+Lemma list_set_app {A} (x y : A) pre post : list_set (length pre) x (pre ++ y :: post) = Some (pre ++ x :: post).
+Proof. induction pre as [|z pre IH]; cbn; [reflexivity|]. rewrite IH. reflexivity. Qed.
+
+(* ---------- header ---------- *)
+Lemma dec_header_ser lvl t p s w ch rest :
+  (N.of_nat lvl < 2 ^ 64)%N -> (s < 2 ^ 64)%N -> (w < 2 ^ 64)%N -> - 2 ^ 63 <= slot_to_unix t < 2 ^ 63 ->
+  (count_some ch <= 10)%nat ->
+  dec_header 2 (ser_header lvl (SNode t p s w ch) ++ rest) =
+  Some (lvl, SNode t p s w (match lvl with O => [] | S _ => repeat None 10 end),
+        N.of_nat (match lvl with O => O | S _ => count_some ch end), rest).
+Proof.
+  intros Hl Hs Hw Ht Hc. unfold dec_header, ser_header.
+  destruct (time_roundtrip t Ht) as [Htd Hte].
+  repeat rewrite <- app_assoc.
+  rewrite uvarint_roundtrip by exact Hl.
+  rewrite uvarint_roundtrip by exact Hte.
+  rewrite uvarint_roundtrip by exact Hs.
+  change (2 <=? 2)%N with true. cbv iota.
+  rewrite uvarint_roundtrip by exact Hw.
+  rewrite uvarint_roundtrip by (destruct p; reflexivity).
+  rewrite uvarint_roundtrip by (destruct lvl; lia).
+  rewrite Htd. rewrite Nat2N.id.
+  destruct p; reflexivity.
+Qed.
+
+(* ---------- children ---------- *)
+Lemma dec_children_ser (dec : bytes -> option (nat * snode * bytes)) l t p s w :
+  forall suf pre rest,
+    slots (fun c => forall r, dec (ser_node l c ++ r) = Some (l, c, r)) (pow10 l)
+          (t + Z.of_nat (length pre) * pow10 l) suf ->
+    dec_children dec (S l) (length (somes suf))
+                 (SNode t p s w (pre ++ repeat None (length suf)))
+                 (concat (map (ser_node l) (somes suf)) ++ rest) =
+    Some (S l, SNode t p s w (pre ++ suf), rest).
+Proof.
+  induction suf as [|o suf IH]; intros pre rest Hs.
+  - cbn. reflexivity.
+  - cbn [slots] in Hs. destruct Hs as [Ho Hrest].
+    assert (Hpre : forall x : option snode,
+              t + Z.of_nat (length pre) * pow10 l + pow10 l = t + Z.of_nat (length (pre ++ [x])) * pow10 l).
+    { intros x. rewrite app_length. cbn [length]. lia. }
+    destruct o as [c|].
+    + destruct Ho as [Hct Hdec]. rewrite somes_cons. cbn [length map concat dec_children].
+      rewrite <- app_assoc. rewrite Hdec. rewrite Nat.eqb_refl. cbn [negb].
+      unfold sn_replace. unfold replace_idx. rewrite Hct.
+      replace (t + Z.of_nat (length pre) * pow10 l - t) with (Z.of_nat (length pre) * pow10 l) by lia.
+      pose proof (pow10_pos l) as Hp. rewrite Z.quot_mul by lia.
+      replace (Z.of_nat (length pre) <? 0) with false by lia. rewrite Nat2Z.id.
+      cbn [repeat]. rewrite list_set_app.
+      replace (pre ++ Some c :: repeat None (length suf)) with ((pre ++ [Some c]) ++ repeat None (length suf))
+        by (rewrite <- app_assoc; reflexivity).
+      rewrite IH.
+      * rewrite <- app_assoc. reflexivity.
+      * rewrite <- Hpre. exact Hrest.
+    + rewrite somes_cons. cbn [length repeat].
+      replace (pre ++ None :: repeat None (length suf)) with ((pre ++ [None]) ++ repeat None (length suf))
+        by (rewrite <- app_assoc; reflexivity).
+      rewrite IH.
+      * rewrite <- app_assoc. reflexivity.
+      * rewrite <- Hpre. exact Hrest.
+Qed.
+
+Lemma height_child l c ch : In (Some c) ch ->
+  (height l c <= fold_right Nat.max 0 (map (height l) (somes ch)))%nat.
+Proof.
+  induction ch as [|o ch IH]; intros H; [destruct H|].
+  rewrite somes_cons. destruct H as [H|H].
+  - subst o. cbn. lia.
+  - specialize (IH H). destruct o; cbn; lia.
+Qed.
+
+Lemma slots_In (P : snode -> Prop) w : forall ch t c, slots P w t ch -> In (Some c) ch -> P c.
+Proof.
+  induction ch as [|o ch IH]; intros t c Hs Hin; [destruct Hin|].
+  cbn in Hs. destruct Hs as [Ho Hr]. destruct Hin as [H|H].
+  - subst o. apply Ho.
+  - eapply IH; eauto.
+Qed.
+
+Lemma slots_strengthen (P Q : snode -> Prop) w : forall ch t,
+  slots P w t ch -> (forall c, In (Some c) ch -> P c -> Q c) -> slots Q w t ch.
+Proof.
+  induction ch as [|o ch IH]; intros t Hs HQ; cbn in *; [exact I|].
+  destruct Hs as [Ho Hr]. split.
+  - destruct o; [|exact I]. destruct Ho. split; [assumption|]. apply HQ; auto.
+  - apply IH; [exact Hr|]. intros c Hc. apply HQ. right. exact Hc.
+Qed.
+
+(* ---------- one node ---------- *)
+Theorem dec_node_ser : forall lvl n fuel rest,
+  wf lvl n -> bounded lvl n -> (lvl <= 8)%nat -> (height lvl n <= fuel)%nat ->
+  dec_node fuel 2 (ser_node lvl n ++ rest) = Some (lvl, n, rest).
+Proof.
+  induction lvl as [|l IH]; intros [t p s w ch] fuel rest Hwf Hb Hl Hf.
+  - destruct fuel as [|f]; [cbn in Hf; lia|].
+    destruct Hwf as [_ Hch]. subst ch. destruct Hb as (Hs & Hw & Ht & _).
+    cbn [dec_node ser_node]. rewrite app_nil_r.
+    rewrite dec_header_ser by (cbn; lia). cbn [N.of_nat].
+    replace (Nlen rest <? 0)%N with false by lia. reflexivity.
+  - destruct fuel as [|f]; [cbn in Hf; lia|].
+    destruct Hwf as [Hm [Hlen Hsl]]. destruct Hb as (Hs & Hw & Ht & Hbc).
+    cbn [dec_node ser_node sn_ch]. rewrite <- app_assoc.
+    assert (Hcnt : (count_some ch <= 10)%nat).
+    { rewrite count_some_somes. unfold somes. clear -Hlen.
+      assert (forall l : list (option snode), length (flat_map (fun o => match o with Some x => [x] | None => [] end) l) <= length l)%nat.
+      { induction l as [|o l IHl]; cbn; [lia|]. rewrite app_length. destruct o; cbn; lia. }
+      specialize (H ch). lia. }
+    rewrite dec_header_ser by (auto; lia).
+    rewrite Nat2N.id.
+    assert (Hg : (Nlen (concat (map (ser_node l) (somes ch)) ++ rest) <? N.of_nat (count_some ch))%N = false).
+    { unfold Nlen. rewrite app_length. pose proof (concat_ser_length l (somes ch)).
+      rewrite count_some_somes. lia. }
+    rewrite Hg. rewrite count_some_somes.
+    replace (repeat None 10) with ([] ++ repeat (@None snode) (length ch)) by (rewrite Hlen; reflexivity).
+    rewrite dec_children_ser; [reflexivity|].
+    cbn [length]. replace (t + Z.of_nat 0 * pow10 l) with t by lia.
+    eapply slots_strengthen; [exact Hsl|].
+    intros c Hin Hwc r. apply IH.
+    + exact Hwc.
+    + unfold oall in Hbc. rewrite Forall_forall in Hbc. exact (Hbc _ Hin).
+    + lia.
+    + cbn [height sn_ch] in Hf. pose proof (height_child l c ch Hin). lia.
+Qed.
+
+(* the fuel handed to the decoder (length of the input) is enough *)
+Lemma max_le_sum (f g : snode -> nat) cs : (forall c, In c cs -> f c <= g c)%nat ->
+  (fold_right Nat.max 0 (map f cs) <= fold_right Nat.add 0 (map g cs))%nat.
+Proof.
+  induction cs as [|c cs IH]; intros H; cbn; [lia|].
+  pose proof (H c (or_introl eq_refl)). assert (forall c0, In c0 cs -> (f c0 <= g c0)%nat) by (intros; apply H; right; auto).
+  specialize (IH H1). lia.
+Qed.
+
+Lemma length_concat_map {A} (f : A -> bytes) cs :
+  length (concat (map f cs)) = fold_right Nat.add 0%nat (map (fun c => length (f c)) cs).
+Proof. induction cs; cbn; [reflexivity|]. rewrite app_length. lia. Qed.
+
+Lemma height_le_length : forall lvl n, (height lvl n <= length (ser_node lvl n))%nat.
+Proof.
+  induction lvl as [|l IH]; intros n.
+  - cbn [height]. apply ser_node_nonempty.
+  - cbn [height ser_node]. rewrite app_length, length_concat_map.
+    assert (1 <= length (ser_header (S l) n))%nat.
+    { destruct n. cbn [ser_header]. rewrite !app_length. pose proof (uvarint_enc_nonempty (N.of_nat (S l))). lia. }
+    pose proof (max_le_sum (height l) (fun c => length (ser_node l c)) (somes (sn_ch n)) (fun c _ => IH c)).
+    lia.
+Qed.
+
+(* ---------- deleteDataBefore keeps the structural invariants ---------- *)
+Definition del_child (l : nat) (thr : Z) (o : option snode) : option snode * list (nat * Z) :=
+  match o with
+  | Some c => let '(c', cbs, del) := s_del_node l thr c in ((if del then None else Some c'), cbs)
+  | None => (None, [])
+  end.
+
+Lemma del_node_unfold_S l thr t p s w ch :
+  s_del_node (S l) thr (SNode t p s w ch) =
+  if thr <? t then (SNode t p s w ch, [], false)
+  else let isb := t + pow10 (S l) <=? thr in
+       let own := if isb then [(S l, t)] else [] in
+       let rs := map (del_child l thr) ch in
+       (SNode t p s w (map fst rs), own ++ concat (map snd rs), isb).
+Proof. reflexivity. Qed.
+
+Lemma del_node_time : forall lvl thr n, sn_time (fst (fst (s_del_node lvl thr n))) = sn_time n.
+Proof.
+  destruct lvl; intros thr [t p s w ch]; cbn [s_del_node]; destruct (thr <? t); reflexivity.
+Qed.
+
+Lemma del_node_wf : forall lvl thr n, wf lvl n -> wf lvl (fst (fst (s_del_node lvl thr n))).
+Proof.
+  induction lvl as [|l IH]; intros thr [t p s w ch] H.
+  - cbn [s_del_node]. destruct (thr <? t); exact H.
+  - rewrite del_node_unfold_S. destruct (thr <? t); [exact H|]. cbv zeta. cbn [fst].
+    destruct H as [Hm [Hlen Hs]]. cbn [wf]. split; [exact Hm|]. rewrite !map_length. split; [exact Hlen|].
+    clear Hlen Hm. revert t Hs. induction ch as [|o ch IHc]; intros t0 Hs; cbn in *; [exact I|].
+    destruct Hs as [Ho Hr]. split; [|apply IHc; exact Hr].
+    destruct o as [c|]; cbn; [|exact I]. destruct Ho as [Ht Hw].
+    pose proof (IH thr c Hw) as Hw'. pose proof (del_node_time l thr c) as Ht'.
+    destruct (s_del_node l thr c) as [[c' cbs] del]. cbn in *. destruct del; cbn; [exact I|].
+    split; [lia|exact Hw'].
+Qed.
+
+Lemma count_some_del l thr ch : (count_some (map fst (map (del_child l thr) ch)) <= count_some ch)%nat.
+Proof.
+  induction ch as [|o ch IH]; [cbn; lia|]. cbn [map]. rewrite !count_some_cons.
+  destruct o as [c|]; cbn; [|lia]. destruct (s_del_node l thr c) as [[c' cbs] del]. destruct del; cbn; lia.
+Qed.
+
+Lemma del_node_two : forall lvl thr n, two lvl n -> two lvl (fst (fst (s_del_node lvl thr n))).
+Proof.
+  induction lvl as [|l IH]; intros thr [t p s w ch] H.
+  - cbn [s_del_node]. destruct (thr <? t); exact H.
+  - rewrite del_node_unfold_S. destruct (thr <? t); [exact H|]. cbv zeta. cbn [fst].
+    destruct H as [Hp Hc]. cbn [two]. split.
+    + intros H2. apply Hp. pose proof (count_some_del l thr ch). lia.
+    + clear Hp. unfold oall in *. induction ch as [|o ch IHc]; cbn; [constructor|].
+      inversion Hc; subst. constructor; [|apply IHc; assumption].
+      destruct o as [c|]; cbn; [|exact I].
+      pose proof (IH thr c H1) as Hc'. destruct (s_del_node l thr c) as [[c' cbs] del]. destruct del; cbn; [exact I|exact Hc'].
+Qed.
+
+Lemma s_delete_before_ok K thr s : seg_ok K s -> seg_ok K (fst (fst (s_delete_before thr s))).
+Proof.
+  unfold s_delete_before, seg_ok. destruct (s_root s) as [[lvl n]|] eqn:E; cbn [fst]; [|rewrite E; auto].
+  intros (Hl & Hwf & Htwo & Hb1 & Hb2).
+  pose proof (del_node_wf lvl thr n Hwf). pose proof (del_node_two lvl thr n Htwo).
+  pose proof (del_node_time lvl thr n).
+  destruct (s_del_node lvl thr n) as [[n' cbs] del]. cbn [fst] in *.
+  destruct del; cbn [fst s_root]; [exact I|].
+  split; [exact Hl|]. split; [assumption|]. split; [assumption|]. unfold in_blk. lia.
+Qed.
+
+(* segments reachable by writes, retention cuts and SetMetadata, inside one epoch block *)
+Inductive reachable (K : Z) : segment -> Prop :=
+| reach_empty : reachable K s_empty
+| reach_put a b smp s : reachable K s -> valid_range K a b -> reachable K (fst (s_put a b smp s))
+| reach_del thr s : reachable K s -> reachable K (fst (fst (s_delete_before thr s)))
+| reach_meta m s : reachable K s -> reachable K (s_set_meta m s).
+
+Lemma reachable_ok K s : reachable K s -> seg_ok K s.
+Proof.
+  induction 1.
+  - exact I.
+  - apply s_put_ok; assumption.
+  - apply s_delete_before_ok; assumption.
+  - exact IHreachable.
+Qed.
+
+(* ---------- the segment codec ---------- *)
+Definition seg_bounded (s : segment) : Prop :=
+  match s_root s with Some (lvl, n) => bounded lvl n | None => True end.
+
+Section Roundtrip.
+  Variable enc_meta : meta -> bytes.
+  Variable dec_meta : bytes -> option meta.
+  Hypothesis meta_roundtrip : forall m, dec_meta (enc_meta m) = Some m.
+  Hypothesis meta_short : forall m, (Nlen (enc_meta m) < 2 ^ 64)%N.
+
+  Theorem codec_roundtrip K s : seg_ok K s -> seg_bounded s -> s_root s <> None ->
+    s_deserialize dec_meta (s_serialize enc_meta s) = Some s.
+  Proof.
+    intros Hok Hb Hne. unfold s_deserialize, s_serialize, seg_ok, seg_bounded in *.
+    destruct s as [[[lvl n]|] m]; cbn [s_root s_meta] in *; [|congruence].
+    destruct Hok as (Hl & Hwf & _).
+    rewrite uvarint_roundtrip by reflexivity.
+    rewrite uvarint_roundtrip by apply meta_short.
+    replace (Nlen (enc_meta m ++ ser_node lvl n) <? Nlen (enc_meta m))%N with false
+      by (unfold Nlen; rewrite app_length; lia).
+    unfold Nlen at 1. rewrite Nat2N.id. rewrite take_bytes_app. rewrite meta_roundtrip.
+    rewrite <- (app_nil_r (ser_node lvl n)) at 2.
+    rewrite dec_node_ser; auto.
+    pose proof (height_le_length lvl n). lia.
+  Qed.
+
+  (* hence every later operation gives equal results, and re-saving gives the same bytes *)
+  Corollary reload_put K s a b smp : seg_ok K s -> seg_bounded s -> s_root s <> None ->
+    option_map (s_put a b smp) (s_deserialize dec_meta (s_serialize enc_meta s)) = Some (s_put a b smp s).
+  Proof. intros. erewrite codec_roundtrip; eauto. Qed.
+  Corollary reload_get K s a b : seg_ok K s -> seg_bounded s -> s_root s <> None ->
+    option_map (s_get a b) (s_deserialize dec_meta (s_serialize enc_meta s)) = Some (s_get a b s).
+  Proof. intros. erewrite codec_roundtrip; eauto. Qed.
+  Corollary reload_delete K s thr : seg_ok K s -> seg_bounded s -> s_root s <> None ->
+    option_map (s_delete_before thr) (s_deserialize dec_meta (s_serialize enc_meta s)) = Some (s_delete_before thr s).
+  Proof. intros. erewrite codec_roundtrip; eauto. Qed.
+  Corollary reload_bytes K s : seg_ok K s -> seg_bounded s -> s_root s <> None ->
+    option_map (s_serialize enc_meta) (s_deserialize dec_meta (s_serialize enc_meta s)) = Some (s_serialize enc_meta s).
+  Proof. intros. erewrite codec_roundtrip; eauto. Qed.
+  (* any function of the state (timeline, StartTime, metadata getters, ...) *)
+  Corollary reload_any {A} (f : segment -> A) K s : seg_ok K s -> seg_bounded s -> s_root s <> None ->
+    option_map f (s_deserialize dec_meta (s_serialize enc_meta s)) = Some (f s).
+  Proof. intros. erewrite codec_roundtrip; eauto. Qed.
+End Roundtrip.
